@@ -19,6 +19,8 @@ def apply_action(w, a):
         return w.half_open(a[1], a[2])
     if a[0] == "half_complete":
         return w.half_complete(a[1], a[2])
+    if a[0] == "half_probe":
+        return w.half_probe(a[1], a[2])
     raise ValueError(a[0])
 
 
@@ -223,3 +225,91 @@ def run_stuck(ctx, res, sigs=None):
                 res.findings.append(Finding(sig, detail, {"engine": "stuck", "ending": o["ending"]}))
     res.extra["stuck_session_cases"] = done
     return done
+
+
+def case_twin_scenario():
+    """users whose nicknames differ in letter case only are different users: each aims user-mode changes, OPER-gained
+    status and queries at the others"""
+    acts = [["connect", {"nick": "root", "user": "rt"}], ["connect", {"nick": "Root", "user": "rtcap"}],
+            ["connect", {"nick": "ROOT", "user": "r3"}], ["connect", {"nick": "al", "user": "al"}]]
+    acts.append(["act", 2, {"verb": "OPER", "name": "root", "password": "rootpw"}])
+    acts.append(["act", 2, {"verb": "MODE", "target": "Root", "modes": [["+iw", []]]}])
+    for actor in (1, 3, 4):
+        for ms in ("-o", "+i-w", "-i", "+o", "-O", "+w", "-r"):
+            for target in ("Root", "root", "ROOT"):
+                acts.append(["act", actor, {"verb": "MODE", "target": target, "modes": [[ms, []]]}])
+        acts.append(["act", actor, {"verb": "MODE", "target": "Root", "modes": []}])
+    acts.append(["act", 2, {"verb": "MODE", "target": "Root", "modes": []}])
+    acts.append(["act", 4, {"verb": "WHOIS", "masks": ["Root", "root", "ROOT"]}])
+    acts.append(["act", 4, {"verb": "USERHOST", "nicks": ["Root", "root", "ROOT"]}])
+    acts.append(["act", 1, {"verb": "KILL", "nick": "Root", "comment": "not an operator"}])
+    acts.append(["act", 2, {"verb": "KILL", "nick": "ROOT", "comment": "by the operator"}])
+    acts.append(["act", 1, {"verb": "LUSERS"}])
+    return {"engine": "e1", "variant": {"preconf": False}, "actions": acts}
+
+
+def run_case_twins(ctx, res, props):
+    binary, hooks = ctx.binary()
+    scen = case_twin_scenario()
+    viol, note = run_scenario(binary, hooks, scen)
+    res.evaluations += len(scen["actions"])
+    res.distinct.add("case-twin-scenario")
+    res.extra["case_twin_steps"] = len(scen["actions"])
+    if note:
+        res.inconclusive += 1
+        res.inconclusive_notes.append("case twins: " + note)
+    for v in viol:
+        if set(v["props"]) & set(props):
+            res.findings.append(Finding("twins:" + v["signature"], v["detail"], {"engine": "e1-scenario", "scenario": scen}))
+
+
+def rank_matrix_scenario():
+    """every rank against every rank: a founder hands out ranks with MODE, then each member tries to KICK each other
+    member (the victim comes back and gets its rank again), sets the topic of the +t channel and invites to the +i
+    channel; the model decides who may"""
+    ranks = {"rq": "q", "ra": "a", "ro": "o", "rh": "h", "rv": "v", "rn": "", "roh": "oh", "rav": "av"}
+    acts = [["connect", {"nick": "fo", "user": "fo"}]]
+    cid = {"fo": 1}
+    for k, n in enumerate(ranks):
+        acts.append(["connect", {"nick": n, "user": n, "multi_prefix": k % 2 == 0}])
+        cid[n] = k + 2
+    acts.append(["connect", {"nick": "out", "user": "out"}])
+    cid["out"] = len(ranks) + 2
+    acts.append(["act", 1, {"verb": "JOIN", "chans": ["#rk"]}])
+    acts.append(["act", 1, {"verb": "MODE", "target": "#rk", "modes": [["+ti", []]]}])
+
+    def grant(n):
+        out = [["act", 1, {"verb": "INVITE", "nick": n, "chan": "#rk"}], ["act", cid[n], {"verb": "JOIN", "chans": ["#rk"]}]]
+        if ranks[n]:
+            out.append(["act", 1, {"verb": "MODE", "target": "#rk", "modes": [["+" + ranks[n], [n] * len(ranks[n])]]}])
+        return out
+    for n in ranks:
+        acts += grant(n)
+    for actor in list(ranks):
+        for victim in list(ranks) + ["fo"]:
+            if victim == actor:
+                continue
+            acts.append(["act", cid[actor], {"verb": "KICK", "chan": "#rk", "users": [victim], "comment": "rank matrix"}])
+            # whoever was removed comes back with its rank (a no-op for those still there: 443 / already a member)
+            if victim != "fo":
+                acts += grant(victim)
+        acts.append(["act", cid[actor], {"verb": "TOPIC", "chan": "#rk", "text": "by " + actor}])
+        acts.append(["act", cid[actor], {"verb": "INVITE", "nick": "out", "chan": "#rk"}])
+        acts.append(["act", cid[actor], {"verb": "MODE", "target": "#rk", "modes": [["+v-v", ["rn", "rn"]]]}])
+    acts.append(["act", 1, {"verb": "NAMES", "chans": ["#rk"]}])
+    return {"engine": "e1", "variant": {"preconf": False}, "actions": acts}
+
+
+def run_rank_matrix(ctx, res, props):
+    binary, hooks = ctx.binary()
+    scen = rank_matrix_scenario()
+    viol, note = run_scenario(binary, hooks, scen)
+    res.evaluations += len(scen["actions"])
+    res.distinct.add("rank-matrix-scenario")
+    res.extra["rank_matrix_steps"] = len(scen["actions"])
+    if note:
+        res.inconclusive += 1
+        res.inconclusive_notes.append("rank matrix: " + note)
+    for v in viol:
+        if set(v["props"]) & set(props):
+            res.findings.append(Finding("ranks:" + v["signature"], v["detail"], {"engine": "e1-scenario", "scenario": scen}))
